@@ -401,6 +401,14 @@ class Ctx:
                 bad = [a for a in ax if a not in ALLOWED_AXIOMS]
                 if bad:
                     o["status"], o["detail"] = "failed", "non-standard axioms: " + ", ".join(bad)
+        # thorough tier: the toolchain's independent re-checker replays the compiled .olean files through the kernel
+        if ok and self.tier == "thorough":
+            with lake_lock():
+                p = subprocess.run(["lake", "env", "leanchecker"] + list(all_mods), cwd=str(LEAN), capture_output=True, text=True, timeout=1800, env=_env_clean())
+            self.extra["leanchecker"] = {"modules": list(all_mods), "exit": p.returncode, "tail": (p.stdout + p.stderr)[-400:]}
+            if p.returncode != 0:
+                for o in obls:
+                    o["status"], o["detail"] = "failed", "leanchecker rejected the compiled module: " + (p.stdout + p.stderr)[-300:]
         for h in hits:
             self.lean_notes.append("forbidden token: " + h)
             # a forbidden token voids every obligation of the module it is in, and of its importers
